@@ -61,8 +61,6 @@ STATIC = [
   "what": "not-ready reported during the re-iteration performed by rule evaluation (uintN(), hash.*, math.*, module loads) is not propagated: the scan returns success with possibly different verdicts (scanner.c never looks at iterator->last_error after yr_execute_code; docs/capi.rst tells iterator authors not to do this)"},
  {"id": "KF-C15-01", "property": "C15", "status": "open", "signatures": ["time|module-loop|data|gap-scales"],
   "what": "timeout checks are counted in VM instructions: a module function with its own byte loop (math.entropy(0, filesize)) inside a rule loop makes the work between two clock reads grow with the data size, so the delay after the deadline is not bounded independently of the data"},
- {"id": "KF-C18-01", "property": "C18", "status": "open", "signatures": ["cli|*|exit-status|zero-although-error-reported"],
-  "what": "directory / scan-list mode: a per-file scan error is printed by the scanning thread but never reaches main's result, so `yara` exits 0 although an error was reported"},
  {"id": "KF-C18-02", "property": "C18", "status": "open", "signatures": ["cli|*|limit-option|*"],
   "what": "`-l N` counts matches in one process-wide, unsynchronised counter: with more than one file the printed set differs from per-file invocations (and depends on the schedule with several threads)"},
 ]
@@ -94,6 +92,7 @@ FIXED = [
  ("C16", "6304e98", "the parser ignored the result of 13 code-emitting calls (N of / N% of / in / at / not / defined / set markers / all-any-none, and the anonymous `$` of a for-of body): when the code buffer could not grow at that instruction compilation reported success with the instruction missing (assertions in yr_execute_code, ERROR_INTERNAL_FATAL_ERROR from every scan)"),
  ("C16", "8815d6e", "NULL dereference (strncmp) in yr_parser_emit_pushes_for_rules over a rule whose declaration had failed half-way for lack of memory"),
  ("C08", "c8fe739", "yr_rules_save ignored the result of fclose: a write error that surfaces only at flush time (disk full, buffered stdio) was reported as ERROR_SUCCESS for a file that does not load"),
+ ("C18", "dirmode-exit-fix", "directory / scan-list mode: a per-file scan error was printed by the scanning thread but never reached main's result, so `yara` exited 0 although an error was reported"),
  ("C18", "cli-culprit-fix", "yara CLI printed `string \"$x\" in rule \"r\" caused could not open file` for an unreadable file after an earlier file on the same thread had hit a limit"),
 ]
 
@@ -116,6 +115,8 @@ def main():
         c = commit
         if commit == "elf-fix":
             c = next((l.split()[0] for l in log if "elf module leaked" in l), commit)
+        if commit == "dirmode-exit-fix":
+            c = next((l.split()[0] for l in log if "exited 0 after per-file scan errors" in l), commit)
         if commit == "cli-culprit-fix":
             c = next((l.split()[0] for l in log if "yara CLI blamed" in l), commit)
         entries.append({"id": "FX-%s-%s" % (prop, c), "property": prop, "status": "fixed", "commit": c, "what": what, "line": "fixed: property=%s %s %s" % (prop, c, what)})
